@@ -96,13 +96,14 @@ def build_harness(name, variant="hook", extra_src=(), extra_flags="", out_name=N
     import glob as _glob
     # harnesses inline code from the public headers (orconce.h): depend on them too
     deps = srcs + [os.path.join(libdir, "liborc.a"), os.path.join(libdir, "liborctest.a"),
-                   os.path.join(HARNESS, "hcommon.h")] + _glob.glob(os.path.join(REPO, "orc", "*.h"))
+                   os.path.join(HARNESS, "hcommon.h"), os.path.join(HARNESS, "hcgen.h"),
+                   os.path.join(HARNESS, "hbuild.h")] + _glob.glob(os.path.join(REPO, "orc", "*.h"))
     if os.path.exists(outb) and all(os.path.getmtime(outb) >= os.path.getmtime(d)
                                     for d in deps if os.path.exists(d)):
         return outb
     wrapf = "".join(" -Wl,--wrap=%s" % w for w in wrap)
     cmd = ("%s %s -DHAVE_CONFIG_H -DORC_ENABLE_UNSTABLE_API -D_GNU_SOURCE -I%s -I%s -I%s %s "
-           "-o %s %s %s/liborctest.a %s/liborc.a %s -lm -lpthread %s" %
+           "-o %s %s %s/liborctest.a %s/liborc.a %s -lm -lpthread -ldl %s" %
            (v["cc"], v["flags"], REPO, cfg, HARNESS, extra_flags, outb, " ".join(srcs),
             libdir, libdir, wrapf, libs))
     rc, o = sh(cmd, timeout=600)
